@@ -75,6 +75,10 @@ type step struct {
 	Lens   []int    `json:"lens,omitempty"` // iovec lengths of reads
 	Data   []string `json:"data,omitempty"` // iovec contents of writes
 	Buf    uint32   `json:"buf,omitempty"`  // fd_readdir buffer length
+	// Fault, when non-zero, replaces the call's result pointer (opened fd, nread, offset,
+	// filestat, bufused) by this address outside guest memory. Only used with calls that have
+	// no effect besides their result: the call must fail and change nothing.
+	Fault uint32 `json:"fault,omitempty"`
 }
 
 // seedEnt is content that exists in mount 0 before the guest starts.
@@ -102,6 +106,9 @@ type world struct {
 	base  string
 	dirs  []string
 	steps []step
+
+	lastErrno uint32 // errno of the most recent WASI call
+	audits    int
 
 	mixedIO       bool // one descriptor saw positional and sequential I/O
 	rewindListing bool // a listing needed >= 2 calls on a descriptor listed before
@@ -162,6 +169,7 @@ func (w *world) close() {
 // call issues one WASI call; a non-"ok" outcome (trap, panic, internal error) is reported.
 func (w *world) call(name string, args ...uint64) (uint32, string) {
 	e, out := w.p.Call(w.ctx, name, args...)
+	w.lastErrno = e
 	if out.Kind != wz.KOK {
 		return e, fmt.Sprintf("%s did not return an errno: %s", name, out)
 	}
@@ -281,6 +289,8 @@ func errnoName(e uint32) string {
 		return "ENOTEMPTY"
 	case wasiproxy.EIO:
 		return "EIO"
+	case wasiproxy.EFAULT:
+		return "EFAULT"
 	case wasiproxy.EPERM:
 		return "EPERM"
 	case wasiproxy.ENOTSUP:
@@ -314,6 +324,10 @@ func verdict(s step, exp fsmodel.Expect, errno uint32) (bool, string) {
 		evid.Label("unspecified:"+s.Op, 1)
 		return false, "desync"
 	}
+	if exp.Either {
+		evid.Label("either-outcome:"+s.Op+":"+errnoName(errno), 1)
+		return errno == 0, ""
+	}
 	if !exp.Matches(errno) {
 		return false, fmt.Sprintf("%s returned %s, the reference model predicts %s", fmtStep(s), errnoName(errno), describeExpect(exp))
 	}
@@ -330,10 +344,88 @@ func fmtStep(s step) string {
 	return string(b)
 }
 
+// tableOps change the descriptor table when they succeed.
+var tableOps = map[string]bool{"path_open": true, "fd_close": true, "fd_renumber": true}
+
 // apply executes one step against the guest and the model; a non-empty result is a violation.
+// After every call that failed (a failed call must change nothing) and after every call that
+// changes the descriptor table, the guest's descriptor table is audited against the model.
 func (w *world) apply(s step) string {
 	w.steps = append(w.steps, s)
+	msg := w.applyOp(s)
+	if msg != "" {
+		return msg
+	}
+	if w.lastErrno != 0 || tableOps[s.Op] {
+		return w.audit("after " + fmtStep(s) + " (" + errnoName(w.lastErrno) + ")")
+	}
+	return ""
+}
+
+// audit probes the descriptor numbers around the model's table with fd_filestat_get (a call
+// without side effects): exactly the descriptors the model holds must be open, with the
+// model's file type and size. Descriptors are valid from the open that returned them until
+// they are closed, and no other number is ever valid.
+func (w *world) audit(when string) string {
 	m := w.m
+	hi := int32(6)
+	for fd := range m.FDs {
+		if fd < 60 && fd+3 > hi {
+			hi = fd + 3
+		}
+	}
+	var probe []int32
+	for fd := int32(3); fd < hi; fd++ {
+		probe = append(probe, fd)
+	}
+	probe = append(probe, 63, 64, 65)
+	w.audits++
+	for _, fd := range probe {
+		errno, msg := w.call("fd_filestat_get", uint64(uint32(fd)), memStat)
+		if msg != "" {
+			return msg
+		}
+		d := m.FDs[fd]
+		if d == nil {
+			if errno != wasiproxy.EBADF {
+				return fmt.Sprintf("%s: descriptor %d answers fd_filestat_get with %s, but no call returned it or it was closed (model table: %v)", when, fd, errnoName(errno), m.SortedFDs())
+			}
+			continue
+		}
+		if errno != 0 {
+			return fmt.Sprintf("%s: descriptor %d is open in the model (never closed) but fd_filestat_get fails with %s (model table: %v)", when, fd, errnoName(errno), m.SortedFDs())
+		}
+		typ, _ := w.p.Mem.ReadByte(memStat + 16)
+		wantT := byte(ftFile)
+		if d.Ino.Dir {
+			wantT = ftDir
+		}
+		if typ != wantT {
+			return fmt.Sprintf("%s: descriptor %d has filetype %d, the model's descriptor has %d", when, fd, typ, wantT)
+		}
+		if size := int64(w.u64(memStat + 32)); !d.Ino.Dir && size != int64(len(d.Ino.Data)) {
+			return fmt.Sprintf("%s: descriptor %d reports size %d, the model's file has %d bytes", when, fd, size, len(d.Ino.Data))
+		}
+	}
+	return ""
+}
+
+// faultVerdict judges a call whose result pointer lies outside guest memory: it must fail;
+// the model is not advanced (the audit that follows checks that nothing changed).
+func faultVerdict(s step, errno uint32) string {
+	if errno == 0 {
+		return fmt.Sprintf("%s returned ESUCCESS although its result pointer %#x lies outside the guest's memory", fmtStep(s), s.Fault)
+	}
+	evid.Label("fault:"+s.Op+":"+errnoName(errno), 1)
+	return ""
+}
+
+func (w *world) applyOp(s step) string {
+	m := w.m
+	resPtr, statPtr := uint64(memRes), uint64(memStat)
+	if s.Fault != 0 {
+		resPtr, statPtr = uint64(s.Fault), uint64(s.Fault)
+	}
 	noteIO := func(fd int32) {
 		if d := m.FDs[fd]; d != nil && d.Ino != nil {
 			if d.SeqIO && d.PosIO {
@@ -354,9 +446,15 @@ func (w *world) apply(s step) string {
 		o, oflags, fdflags, dirflags, rights := parseOpen(s.Flags)
 		pa, pl := w.putPath(memPath1, s.Path)
 		w.p.Mem.WriteUint32Le(memRes, 0xdeadbeef)
-		errno, msg := w.call("path_open", uint64(uint32(s.FD)), dirflags, pa, pl, oflags, rights, rights, fdflags, memRes)
+		errno, msg := w.call("path_open", uint64(uint32(s.FD)), dirflags, pa, pl, oflags, rights, rights, fdflags, resPtr)
 		if msg != "" {
 			return msg
+		}
+		if s.Fault != 0 {
+			if o.Creat || o.Trunc {
+				return "desync" // whether the file was created/emptied before the fault is unspecified
+			}
+			return faultVerdict(s, errno)
 		}
 		before := m.SortedFDs()
 		exp, wantFD := m.PathOpen(s.FD, s.Path, o)
@@ -385,7 +483,7 @@ func (w *world) apply(s step) string {
 		if s.To >= 64 {
 			w.secondWord = true
 		}
-		_, msg = verdict(s, m.FdRenumber(s.FD, s.To), errno)
+		_, msg = verdict(s, m.FdRenumber(s.FD, s.To, errno == 0), errno)
 		return msg
 	case "fd_read", "fd_pread":
 		addrs := w.layIov(s.Lens, nil)
@@ -398,7 +496,10 @@ func (w *world) apply(s step) string {
 			errno, msg = w.call("fd_read", uint64(uint32(s.FD)), memIov, uint64(len(s.Lens)), memRes)
 			exp, want = m.FdRead(s.FD, total(s.Lens))
 		} else {
-			errno, msg = w.call("fd_pread", uint64(uint32(s.FD)), memIov, uint64(len(s.Lens)), uint64(s.Off), memRes)
+			errno, msg = w.call("fd_pread", uint64(uint32(s.FD)), memIov, uint64(len(s.Lens)), uint64(s.Off), resPtr)
+			if msg == "" && s.Fault != 0 {
+				return faultVerdict(s, errno)
+			}
 			exp, want = m.FdPread(s.FD, total(s.Lens), s.Off)
 		}
 		if msg != "" {
@@ -453,7 +554,10 @@ func (w *world) apply(s step) string {
 			errno, msg = w.call("fd_seek", uint64(uint32(s.FD)), uint64(s.Off), uint64(s.Whence), memRes)
 			exp, want = m.FdSeek(s.FD, s.Off, s.Whence)
 		} else {
-			errno, msg = w.call("fd_tell", uint64(uint32(s.FD)), memRes)
+			errno, msg = w.call("fd_tell", uint64(uint32(s.FD)), resPtr)
+			if msg == "" && s.Fault != 0 {
+				return faultVerdict(s, errno)
+			}
 			exp, want = m.FdSeek(s.FD, 0, 1)
 		}
 		if msg != "" {
@@ -473,7 +577,10 @@ func (w *world) apply(s step) string {
 		var isDir bool
 		var size int64
 		if s.Op == "fd_filestat_get" {
-			errno, msg = w.call("fd_filestat_get", uint64(uint32(s.FD)), memStat)
+			errno, msg = w.call("fd_filestat_get", uint64(uint32(s.FD)), statPtr)
+			if msg == "" && s.Fault != 0 {
+				return faultVerdict(s, errno)
+			}
 			exp, isDir, size = m.FdFilestat(s.FD)
 		} else {
 			pa, pl := w.putPath(memPath1, s.Path)
@@ -481,7 +588,10 @@ func (w *world) apply(s step) string {
 			if strings.Contains(s.Flags, "f") {
 				lf = 1
 			}
-			errno, msg = w.call("path_filestat_get", uint64(uint32(s.FD)), lf, pa, pl, memStat)
+			errno, msg = w.call("path_filestat_get", uint64(uint32(s.FD)), lf, pa, pl, statPtr)
+			if msg == "" && s.Fault != 0 {
+				return faultVerdict(s, errno)
+			}
 			exp, isDir, size = m.PathFilestat(s.FD, s.Path)
 		}
 		if msg != "" {
@@ -540,6 +650,13 @@ func (w *world) apply(s step) string {
 		_, msg = verdict(s, exp, errno)
 		return msg
 	case "fd_readdir":
+		if s.Fault != 0 {
+			errno, msg := w.call("fd_readdir", uint64(uint32(s.FD)), memDir, uint64(s.Buf), 0, resPtr)
+			if msg != "" {
+				return msg
+			}
+			return faultVerdict(s, errno)
+		}
 		return w.applyListing(s)
 	}
 	return ""
@@ -898,7 +1015,25 @@ func genLens(t *rapid.T) []int {
 	return out
 }
 
+// faultable lists the calls whose only effect is their result, so that a result pointer
+// outside guest memory has an unambiguous outcome: failure, nothing changed.
+var faultable = map[string]bool{"path_open": true, "fd_pread": true, "fd_tell": true, "fd_filestat_get": true,
+	"path_filestat_get": true, "fd_readdir": true}
+
 func (w *world) genStep(t *rapid.T) step {
+	s := w.genStep0(t)
+	if faultable[s.Op] && rapid.IntRange(0, 15).Draw(t, "fault") == 15 {
+		if s.Op == "path_open" && strings.ContainsAny(s.Flags, "ct") {
+			// whether a faulting open may already have created/emptied the file is unspecified
+			evid.Label("narrow-fault-on-creating-open", 1)
+			return s
+		}
+		s.Fault = rapid.SampledFrom([]uint32{65536, 65533, 0xfffffffc}).Draw(t, "faultptr")
+	}
+	return s
+}
+
+func (w *world) genStep0(t *rapid.T) step {
 	c := w.classes()
 	op := rapid.SampledFrom(opWeights).Draw(t, "op")
 	if len(c.files) == 0 && fileOps[op] && rapid.IntRange(0, 3).Draw(t, "needfile") != 0 {
@@ -948,12 +1083,28 @@ func (w *world) genStep(t *rapid.T) step {
 			}
 		}
 		from := pickFD(t, movable, nil, c.closed)
-		var tos []int32
+		var tos, pre []int32
 		tos = append(tos, movable...)
 		tos = append(tos, c.closed...)
+		for _, fd := range c.dirs {
+			if w.m.FDs[fd].Preopen {
+				pre = append(pre, fd)
+			}
+		}
 		to := rapid.SampledFrom(tos).Draw(t, "to")
-		if rapid.IntRange(0, 5).Draw(t, "self") == 5 {
+		switch rapid.IntRange(0, 11).Draw(t, "special") {
+		case 11, 10:
 			to = from
+		case 9, 8:
+			// onto a pre-opened directory: wazero refuses (ENOTSUP); a refused call must leave
+			// `from` valid and its slot taken
+			if len(pre) > 0 {
+				to = rapid.SampledFrom(pre).Draw(t, "topre")
+			}
+		case 7:
+			if len(pre) > 0 && rapid.Bool().Draw(t, "frompre") {
+				from = rapid.SampledFrom(pre).Draw(t, "frompre2")
+			}
 		}
 		if from == to && renumberSelfBroken() {
 			// known finding C16-renumber-self: class excluded, its input is re-run by TestRenumberSelf
